@@ -245,9 +245,12 @@ def dump():
     out = subprocess.check_output(["/verif/bin/zrntlint", "cmps"]).decode()
     rows = []
     for line in out.splitlines():
+        line, _, rest = line.partition("\t")
+        absform, _, rest2 = rest.partition("\t")
+        resform, _, ropform = rest2.partition("\t")
         m = re.match(r"^(\S+)\s+(\S+)\s+P=(.*?)\s+// (.*)$", line)
         if m:
-            rows.append((m.group(1), m.group(2), m.group(3).strip(), m.group(4).strip()))
+            rows.append((m.group(1), m.group(2), m.group(3).strip(), m.group(4).strip(), absform.strip(), resform.strip(), ropform.strip()))
     return rows
 
 def parse_poly(s):
@@ -267,9 +270,7 @@ def leaf_regex(atom):
     # anchored, case-insensitive: calls by name, selector paths by their last two components, plain names exactly
     if "(" in atom and not atom.startswith("("):
         name = atom[:atom.index("(")].split(".")[-1]
-        if name == "len" or name == "mod":
-            return "(?i)^" + re.escape(atom) + "$"
-        return "(?i)(^|\\.)" + re.escape(name) + "\\("
+        return "(?i)^" + re.escape(atom) + "$"
     parts = atom.split(".")
     if 2 <= len(parts) <= 3:
         return "(?i)^" + re.escape(atom) + "$"
@@ -290,7 +291,7 @@ def main():
             print("PICK NOT FOUND:", fn, text, file=sys.stderr)
             missing += 1
             continue
-        _, op, ps, _ = cands[0]
+        _, op, ps, _, absform, resform, ropform = cands[0]
         poly = parse_poly(ps)
         k = poly.pop("", 0)
         # atoms of monomials (split products)
@@ -305,7 +306,9 @@ def main():
             return i if i >= 0 else 10**6
         atoms.sort(key=pos)
         anchor, ac = atoms[0]
+        ROP = ropform
         if ac < 0:
+            ROP = FLIP.get(ROP, ROP)
             op = FLIP[op]
             k = -k
             atoms = [(a, -c) for a, c in atoms]
@@ -318,8 +321,8 @@ def main():
             regs.append(r)
             coefs.append(c)
         count = len(cands)
-        out.append('\t{fn: %s, atoms: []string{%s}, op: %s, k: %d, coefs: []int64{%s}, count: %d, spec: %s},' % (
-            gq(fn), ", ".join(gq(r) for r in regs), gq(op), k, ", ".join(str(c) for c in coefs), count, gq(spec)))
+        out.append('\t{fn: %s, atoms: []string{%s}, op: %s, k: %d, coefs: []int64{%s}, count: %d, abs: %s, res: %s, rop: %s, spec: %s},' % (
+            gq(fn), ", ".join(gq(r) for r in regs), gq(op), k, ", ".join(str(c) for c in coefs), count, gq(absform), gq(resform), gq(ROP), gq(spec)))
     for fn, typ, op, count, spec in TYPED:
         out.append('\t{fn: %s, typ: %s, op: %s, count: %d, spec: %s},' % (gq(fn), gq(typ), gq(op), count, gq(spec)))
     out.append("}")
